@@ -26,15 +26,23 @@ CHECKS = {
         text=("C08_OnlyAuthorDeletes (frame condition: a kind-5 step removes only own referenced events and at least the older ones) "
               "is model-checked on Store.tla and evaluated by TLC on every step of every trace of TLC-generated histories mixing three "
               "authors, own/foreign/unknown/duplicate references, deletions older than / equal to / newer than their targets and "
-              "deletions of deletions, on both backends; every id is afterwards probed through get_event and a REQ by ids."),
-        technique="TLA+ Store.tla model-checked by TLC; TLC-generated histories replayed on both backends; traces validated by TLC"),
+              "deletions of deletions, targets at the byte-order edges of the deleter's index walk (one second older, ids starting 0xff / 0x00), "
+              "on both backends; every id is afterwards probed through get_event and a REQ by ids. Second engine (LMDB): KvWrite.tla "
+              "transcribes the writer's transaction (WriterThread.run / _post_save on top of the scanner of KvScan.tla); TLC model-checks "
+              "that it refines the C08 clause (MC_KvWrite; with the seek target as found it yields the counterexample of finding 20) and, "
+              "for every recorded write transaction of the real writer, computes the transcription's outcome, compares, and evaluates "
+              "the clause on the recorded step (KvWrite_Trace.tla)."),
+        technique="TLA+ Store.tla model-checked by TLC; TLC-generated histories replayed on both backends; traces validated by TLC; TLA+ KvWrite.tla (transcribed LMDB writer over the transcribed scanner) model-checked and trace-validated per write transaction"),
     "C09": dict(
         cat="model_checking", ref="DESIGN.md §5 C09",
         text=("C09_Replaceable (only same-address not-newer versions disappear, every older one does, regular events remove nothing) "
               "is model-checked on Store.tla and evaluated by TLC on every step of every trace of all arrival orders (to a depth) over "
               "six universes: plain/metadata replaceables with timestamp ties, d-values that are substrings of one another, "
-              "absent/bare/empty d tags, kind-range boundaries, unicode d-values; both backends, with and without writer lag."),
-        technique="TLA+ Store.tla model-checked by TLC; TLC-generated arrival orders replayed on both backends; traces validated by TLC"),
+              "absent/bare/empty d tags, kind-range boundaries, unicode d-values; both backends, with and without writer lag. Second "
+              "engine (LMDB): KvWrite.tla (the writer's transaction over the scanner of KvScan.tla) is model-checked against the C09 "
+              "clause (MC_KvWrite) and, for every recorded write transaction of the real writer, TLC computes the transcription's "
+              "outcome, compares, and evaluates the clause on the recorded step (KvWrite_Trace.tla)."),
+        technique="TLA+ Store.tla model-checked by TLC; TLC-generated arrival orders replayed on both backends; traces validated by TLC; TLA+ KvWrite.tla (transcribed LMDB writer) model-checked and trace-validated per write transaction"),
     "C17": dict(
         cat="model_checking", ref="DESIGN.md §5 C17",
         text=("C17_GcExact (a pass at T removes exactly the ephemeral and the expired) is model-checked on Store.tla and evaluated by "
